@@ -199,7 +199,8 @@ class SimA(Simulator):
             group = []
             for c in range(n):
                 base = version if rng.random() < 0.85 else max(0, version - 1)
-                group.append([f"client{c}", base, rng.choice([0.0, 0.01, 0.05, 0.2]), int(rng.random() < 0.1)])
+                group.append([f"client{c}", base, rng.choice([0.0, 0.01, 0.05, 0.2]), int(rng.random() < 0.2),
+                              rng.choice([0.0, 0.0, 0.005, 0.02, 0.04, 0.08, 0.15, 0.3])])   # staggered arrival
             ops.append(["saves", "E1", group, rng.choice([0.0, 0.0, 0.02])])
             version += 1      # nominal; the oracle reads the real version
         return {"cfg": {}, "ops": ops}
@@ -493,8 +494,8 @@ class SimA(Simulator):
         v0 = ed.method.version
         results: list[tuple[str, int, Any]] = []
 
-        async def one(client, base, lat, fail):
-            await asyncio.sleep(0)      # all clients read the version first; the engine round trip differs
+        async def one(client, base, lat, fail, delay=0.0):
+            await asyncio.sleep(delay)  # requests arrive at drawn offsets; the engine round trip differs per request
             method = m_models.Method(lines=[PMdl.MethodLine(id="l1", content=f"Mark: {client}"),
                                             PMdl.MethodLine(id="l2", content="")], version=base, last_author=client)
             w.rpc_latencies.append(lat)
@@ -518,6 +519,10 @@ class SimA(Simulator):
         if v1 != v0 + len(accepted):
             res.add("C31", "C31.version_not_incremented_per_accepted_save", "save_method", step,
                     f"version {v0} -> {v1} after {len(accepted)} accepted save(s)")
+        versions = [r for c, b, r in accepted]
+        if len(set(versions)) != len(versions):
+            res.add("C31", "C31.two_saves_accepted_on_same_version", "save_method", step,
+                    f"accepted saves returned the same new version: {[(c, b, r) for c, b, r in accepted]}")
         for c, b, r in accepted:
             if b != v0 and len(accepted) == 1:
                 res.add("C31", "C31.stale_save_accepted", "save_method", step,
@@ -660,6 +665,7 @@ class SimA(Simulator):
                         vals = s.scalars(select(DMdl.PlotLogEntryValue).where(
                             DMdl.PlotLogEntryValue.plot_log_entry_id == en.id).order_by(DMdl.PlotLogEntryValue.id)).all()
                         prev = None
+                        prev_src = None
                         for v in vals:
                             val = v.value_float if v.value_float is not None else (v.value_str if v.value_str is not None else v.value_int)
                             if prev is not None and not v.tick_time > prev:
@@ -668,6 +674,13 @@ class SimA(Simulator):
                             prev = v.tick_time
                             batch_times.append(v.tick_time)
                             reps = w.reports.get((p.engine_id, en.name), [])
+                            src = [rt for rt, rv in reps if rv == val]       # values are unique: the report this row stems from
+                            if src:
+                                if prev_src is not None and src[0] < prev_src - 1e-9:
+                                    res.add("C29", "C29.recorded_value_older_than_previous", en.name, step,
+                                            f"run {p.run_id} tag {en.name}: row ({v.tick_time}, {val!r}) stems from the report at "
+                                            f"{src[0]}, older than the previously recorded value's report at {prev_src}")
+                                prev_src = src[0]
                             if not any(rv == val and rt <= v.tick_time + 1e-9 for rt, rv in reps):
                                 res.add("C29", "C29.value_never_reported", en.name, step,
                                         f"run {p.run_id} tag {en.name}: stored ({v.tick_time}, {val!r}) has no report with "
